@@ -269,6 +269,12 @@ def run(ctx):
                   lambda c: gen.CLIMAT_CODES.get(c, str(c)), keyfn=climat_key)
     ctx.stream("edgelist", gen.edgelist_lines(ctx.rng.fork("edgelist"), 3000 if q else 60000),
                "edge-list reader vs. the documented grammar (Coq parser)", describe=lambda c: gen.EDGELIST_CODES.get(c, str(c)))
+    # the matrices returned by the k-sum compose functions (special lines at random positions and in either order) must be
+    # consistent sparse matrices too: judge_kcompose decodes the raw CSR arrays under csr_wf and compares with the block formula
+    from props import c12 as _c12
+    ctx.stream("kcompose", _c12.compose_lines(ctx.rng.fork("c20-ksum"), 4000 if q else 60000),
+               "sums: matrices returned by the 2-/Delta-/Y-/3-sum compose functions", describe=lambda c: _c12.CODES.get(c, str(c)),
+               ignore_codes=(140, 142))
     ctx.stream("matutil", matutil_lines(ctx, mats), "matrix and submatrix utilities vs. their dense models",
                describe=lambda c: MCODES.get(c, str(c)), keyfn=mkeyfn)
     ctx.stream("textwrite", wl, "writers: print, parse by the documented grammar, read back", describe=lambda c: CODES.get(c, str(c)))
